@@ -61,15 +61,25 @@ def modules_of(pid):
     return out
 
 def theorems_of(pid):
+    """(module, fully qualified name) of every theorem named <pid>_… in the property's modules; namespaces are tracked
+    (`namespace X` … `end X`), so theorems in nested namespaces get their full name"""
     res = []
     for m in modules_of(pid):
         src = open(os.path.join(LEAN, "Properties", m + ".lean")).read()
         code = strip_comments(src)
-        ns = re.findall(r"^\s*namespace\s+([A-Za-z0-9_.]+)", code, re.M)
-        prefix = (ns[0] + ".") if ns else ""
-        for t in re.findall(r"^\s*theorem\s+([A-Za-z0-9_.']+)", code, re.M):
-            if t.startswith(pid + "_"):
-                res.append((m, prefix + t))
+        stack = []
+        for line in code.split("\n"):
+            mm = re.match(r"^\s*namespace\s+([A-Za-z0-9_.]+)", line)
+            if mm:
+                stack.append(mm.group(1)); continue
+            mm = re.match(r"^\s*end\s+([A-Za-z0-9_.]+)\s*$", line)
+            if mm and stack and stack[-1] == mm.group(1):
+                stack.pop(); continue
+            mm = re.match(r"^\s*(?:@\[[^\]]*\]\s*)?(?:private\s+|protected\s+)?theorem\s+([A-Za-z0-9_.']+)", line)
+            if mm:
+                t = mm.group(1)
+                if t.split(".")[-1].startswith(pid + "_") or t.startswith(pid + "_"):
+                    res.append((m, ".".join(stack + [t])))
     return res
 
 def run(pid, thorough=False):
